@@ -29,7 +29,7 @@ FIND = [("nq", 60, 1200), ("latequeue", 40, 800), ("fault", 60, 1200)]
 SCHED_PLANS = {
     "C01": SAFE + FIND,
     "C02": SAFE + FIND,
-    "C03": [("base", 200, 4000), ("tail", 150, 3000), ("pop", 80, 1500), ("queue", 60, 1500), ("nq", 40, 800)],
+    "C03": [("base", 200, 4000), ("tall", 30, 400), ("tail", 150, 3000), ("pop", 80, 1500), ("queue", 60, 1500), ("nq", 40, 800)],
     "C05": [("fault", 100, 2000), ("base", 200, 4000), ("pop", 80, 1500), ("queue", 80, 1500), ("stop", 40, 1000), ("nq", 60, 1200)],
     "C06": [("base", 250, 5000), ("pop", 100, 2000), ("queue", 80, 1500), ("stop", 40, 800)],
     "C11": SAFE,
@@ -38,8 +38,8 @@ SCHED_PLANS = {
     "C14": [("stop", 250, 5000), ("stoppop", 80, 1500), ("stop@free", 150, 3000), ("base@free", 50, 1000), ("manual", 60, 1000), ("none", 60, 1000), ("base", 60, 1000)],
     "C15": [("fault", 250, 5000), ("base", 40, 500)],
     "C16": SAFE + FIND,
-    "C17": [("queue", 250, 5000), ("latequeue", 80, 1500), ("pop", 40, 800)],
-    "C18": [("pop", 300, 6000), ("base", 60, 1000)],
+    "C17": [("queue", 250, 5000), ("manualqueue", 100, 2000), ("latequeue", 80, 1500), ("pop", 40, 800)],
+    "C18": [("pop", 300, 6000), ("tall", 40, 600), ("base", 60, 1000)],
 }
 
 
@@ -265,7 +265,7 @@ def decor_part(prop, tier, seed):
 
 PARTS["C20"] = [decor_part]
 
-SCHED_PLANS["C04"] = [("base", 120, 2500), ("pop", 100, 2000), ("queue", 50, 1000), ("delay", 60, 1200), ("none", 40, 800), ("manual", 40, 800)]
+SCHED_PLANS["C04"] = [("base", 120, 2500), ("tall", 30, 400), ("pop", 100, 2000), ("queue", 50, 1000), ("delay", 60, 1200), ("none", 40, 800), ("manual", 40, 800)]
 
 
 def term_part(prop, tier, seed):
@@ -348,10 +348,10 @@ def term_part(prop, tier, seed):
 
 CORE_CFGS = {   # property -> (quick configs, thorough configs) of MPBCore.tla
     "C01": (["q0", "rm", "manual", "sync2q0"], ["q0", "rm", "drop", "queue", "pop", "write", "sync2", "mixed2", "shut", "manual", "manualsync", "none", "fault1", "prio", "sync2q0", "three"]),
-    "C02": (["q0", "sync2q0"], ["q0", "shut", "two", "sync2q0", "sync2q1"]),
+    "C02": (["q0", "sync2q0", "priorm"], ["q0", "shut", "two", "sync2q0", "sync2q1", "priorm", "priopop"]),
     "C03": (["write", "rm"], ["write", "rm", "drop", "two"]),
     "C05": (["rm", "queue"], ["rm", "drop", "queue", "pop", "mixed2", "sync2q0"]),
-    "C06": (["prio"], ["prio", "priolazy", "queue", "pop"]),
+    "C06": (["prio", "priorm"], ["prio", "priolazy", "queue", "pop", "priorm", "priopop"]),
     "C15": (["fault1", "faultsync"], ["fault1", "fault2", "faultsync"]),
     "C12": (["drop", "mixed2"], ["sync2", "mixed2", "drop", "three", "pop3"]),
     "C13": (["write"], ["write", "two"]),
@@ -374,7 +374,7 @@ def core_part(prop, tier, seed):
         cfgs = CORE_CFGS[prop][0 if tier == "quick" else 1]
         nsim, nrand = (30, 15) if tier == "quick" else (200, 80)
         states = trans = 0
-        model, scs, expect = [], [], {}
+        model, scs, expect, calm = [], [], {}, {}
         for name in cfgs:
             r = cb.check_config(wd, name, workers=core.NCPU)
             states += r["states"]
@@ -384,9 +384,17 @@ def core_part(prop, tier, seed):
                 sid = "core-cex-%s" % name
                 scs.append(cb.scenario(name, sid, [cb.to_harness(l) for l in r["schedule"]]))
                 expect[sid] = r["violated"]
-            sched, _ = cb.simulate(wd, name, nsim, 400, seed)
+            # half of the behaviours unrestricted (a select with several ready cases is resolved by the Go runtime, so the
+            # replay may leave the schedule there), half "calm": TLC only takes steps after which no select has two ready
+            # cases, and the harness can follow those to the end
+            sched, _ = cb.simulate(wd, name, nsim // 2, 400, seed)
             for i, (outcome, labs) in enumerate(sched):
                 scs.append(cb.scenario(name, "core-sim-%s-%d" % (name, i), [cb.to_harness(l) for l in labs]))
+            sched, _ = cb.simulate(wd, name, nsim - nsim // 2, 400, seed, det="calm")
+            for i, (outcome, labs) in enumerate(sched):
+                sid = "core-calm-%s-%d" % (name, i)
+                scs.append(cb.scenario(name, sid, [cb.to_harness(l) for l in labs]))
+                calm[sid] = outcome
             for i in range(nrand):
                 scs.append(cb.scenario(name, "core-rnd-%s-%d-%d" % (name, seed, i), mode="random", seed=seed * 1000 + i))
         traces = core.run_scenarios(binary, wd, scs, chunk=20)
@@ -403,6 +411,19 @@ def core_part(prop, tier, seed):
                 raise core.Infra("MPBCore counterexample (%s, invariant %s) does not reproduce on the code%s: the model is wrong" % (
                     sid, inv, " (diverged at step %d)" % div[0]["at"] if div else ""))
         diverged = [tid for tid, evs in traces.items() if any(e["ev"] == "diverge" for e in evs)]
+        calm_div = [tid for tid in diverged if tid in calm]
+        # a calm behaviour that was followed to its end must end the way the specification says
+        calm_end = {"agree": 0, "differ": []}
+        for sid, outcome in calm.items():
+            if sid in diverged or sid not in traces:
+                continue
+            hung = any(e["ev"] == "hang" for e in traces[sid])
+            panicked = any(e["ev"] == "panic" for e in traces[sid])
+            real = "panic" if panicked else "stuck" if hung else "done"
+            if real == outcome:
+                calm_end["agree"] += 1
+            else:
+                calm_end["differ"].append({"trace": sid, "model": outcome, "code": real})
         # code -> spec: every recorded gate trace must be a behaviour of the specification
         acc_n = rej_n = steps = 0
         rejected = []
@@ -423,12 +444,16 @@ def core_part(prop, tier, seed):
                        "library, %d seeded random-scheduler runs; every gate trace validated against the specification (released gate + multiset "
                        "of parked gates after each step); distinct = distinct gate/call/frame sequences" % (",".join(cfgs), nsim, nrand),
                "exhaustive": True, "model": model, "replays": len(scs), "replay_divergences": len(diverged),
+               "calm_replays": len(calm), "calm_replay_divergences": len(calm_div), "calm_outcomes_agree": calm_end["agree"],
+               "calm_outcomes_differ": calm_end["differ"][:10],
                "gate_traces_accepted": acc_n, "gate_traces_rejected": rej_n, "gate_steps": steps, "drift_traces": rejected[:10],
                "known_findings": {k: len({b["tr"] for b in v}) for k, v in known.items()},
                "checker_cmd": "tlc MPBCore.tla (MCgen_<cfg>) ; tlc -simulate MPBSim.tla ; harness.test TestWorker (replay) ; tlc MPBTrace.tla ; tlc Obs.tla"}
-        lines.append("%s %s core: %d configs, %d model states, %d replays (%d diverged), gate traces %d accepted / %d rejected, %d violations, %.1fs" % (
-            prop, tier, len(cfgs), sum(m["states"] for m in model), len(scs), len(diverged), acc_n, rej_n, nviol, time.time() - t0))
-        if rej_n or diverged:
+        lines.append("%s %s core: %d configs, %d model states, %d replays (%d left their schedule at a select; of %d calm ones %d did, %d ended as the model says, %d differently), "
+                     "gate traces %d accepted / %d rejected, %d violations, %.1fs" % (
+            prop, tier, len(cfgs), sum(m["states"] for m in model), len(scs), len(diverged), len(calm), len(calm_div), calm_end["agree"], len(calm_end["differ"]),
+            acc_n, rej_n, nviol, time.time() - t0))
+        if rej_n or calm_div or calm_end["differ"]:
             lines.append("note: model drift (rejected gate traces / replay divergences) is recorded in the evidence; it is not a verdict on the code")
         return {"cov": cov, "lines": lines, "nviol": nviol,
                 "assume": ["the gates cover every racing channel operation (hooks in /repo, tag verif); what runs between two gates is sequential",
